@@ -225,6 +225,19 @@ func c17WholeRequest(o *Out, r *Rng, c int) {
 		delete(p2, "min")
 	}
 	q.Body["biases"] = []interface{}{J{"name": "fatigue", "props": d1GenFatigueProps(r)}, J{"name": second, "props": p2}}
+	if r.chance(0.15) && len(q.Problem.Chosen) >= 1 {
+		// the service accepts a repeated id in choseToMake; every known alternative is still blurred and reported
+		ch := append([]string{}, q.Problem.Chosen...)
+		ch = append(ch, ch[r.Intn(len(ch))])
+		if len(ch) > len(q.Problem.Known) {
+			ch = ch[len(ch)-len(q.Problem.Known):]
+		}
+		for len(ch) < len(q.Problem.Known) && r.chance(0.7) {
+			ch = append(ch, ch[0])
+		}
+		q.Body["choseToMake"] = ch
+		o.count("whole-request:repeated-chosen-id")
+	}
 	js, _ := json.Marshal(q.Body)
 	var dm model.DecisionMaker
 	if json.Unmarshal(js, &dm) != nil {
@@ -242,6 +255,21 @@ func c17WholeRequest(o *Out, r *Rng, c int) {
 	}
 	handed := tr.Steps[0].Out
 	same := altsEqual(rep.ConsideredAlternatives, handed.Co) && altsEqual(rep.NotConsideredAlternatives, handed.Nc)
+	covered := map[string]bool{}
+	for _, a := range rep.ConsideredAlternatives {
+		covered[a.Id] = true
+	}
+	for _, a := range rep.NotConsideredAlternatives {
+		covered[a.Id] = true
+	}
+	all := true
+	for _, a := range dm.KnownAlternatives {
+		all = all && covered[a.Id]
+	}
+	mc := m
+	mc.Stage = "fatigue-report-covers-known"
+	mc.GoOut = J{"reported": rep}
+	o.Oracle(mc, all, "a known alternative is missing from the fatigue report (not blurred / not reported)")
 	m.GoOut = J{"reported": rep, "handedOnConsidered": handed.Co, "handedOnNotConsidered": handed.Nc, "after": second}
 	o.Oracle(m, same, "the fatigue report in the response does not carry the values the fatigue handed on (changed by the bias after it)")
 	o.count("whole-request:after=" + second)
